@@ -53,6 +53,7 @@ type FuncSpec struct {
 	RelEnsures  []*Clause
 	RelInvs     []*Clause
 	RelAsserts  []*Clause
+	Uses      []string // optional axioms this function's proof uses
 	Assumes   []*Clause // explicit call-site assumptions (listed in the evidence)
 	Props     []*Clause // propagates
 	Modifies  []string
@@ -92,6 +93,7 @@ type GhostDecl struct {
 }
 
 type Axiom struct {
+	Optional bool // only used by functions whose contract says "uses NAME"
 	Name string
 	Expr *SExpr
 	Mode string
@@ -241,6 +243,14 @@ func (ss *SpecSet) parseFile(path string) error {
 				cur.RelAsserts = append(cur.RelAsserts, c)
 			default:
 				return fail("bad rel clause")
+			}
+			continue
+		}
+		if kw == "uses" && cur != nil {
+			for _, x := range strings.Split(rest, ",") {
+				if x = strings.TrimSpace(x); x != "" {
+					cur.Uses = append(cur.Uses, x)
+				}
 			}
 			continue
 		}
@@ -494,11 +504,18 @@ func (ss *SpecSet) parseFile(path string) error {
 			}
 			hd := strings.Fields(rest[:i])
 			ax := &Axiom{Text: strings.TrimSpace(rest[i+1:])}
-			if len(hd) == 2 {
-				ax.Mode, ax.Name = hd[0], hd[1]
-			} else {
-				ax.Name = hd[0]
+			for len(hd) > 1 {
+				switch hd[0] {
+				case "int", "bv":
+					ax.Mode = hd[0]
+				case "optional":
+					ax.Optional = true
+				default:
+					return fail("axiom [int|bv] [optional] name : expr")
+				}
+				hd = hd[1:]
 			}
+			ax.Name = hd[0]
 			e, err := parseSExpr(ax.Text)
 			if err != nil {
 				return fail("%v", err)
